@@ -121,6 +121,9 @@ def run(ctx):
             ctx.count("targets:" + ("in-gamut" if f["zero"] else "below-baseline" if f["below"] else "outside"))
             if any(a != 0 for a in f["asg"]):
                 ctx.nontrivial.add((repr(st["sys"]["A"]), repr(st["sys"]["lb"]), repr(st["sys"]["ub"]), st["sys"]["kk"], repr(st["sys"]["Kn"]), repr(st["sys"]["bl"]), tuple(st["w"]), tuple(f["b"])))
+    # code -> spec: recorded calls on random lattice systems outside the curated families, recomputed by TLC
+    from .. import sysdriver
+    sysdriver.run_trace(ctx, "fit", "C04", 16, 40 if thorough else 12)
     ctx.traces += len(sts)
     for st in sts[:: max(1, len(sts) // 3)][:3]:
         ctx.sample(dict(sys=st["sys"], w=st["w"], fam=st["fam"], n_targets=len(st["fits"]), first_fits=st["fits"][:3]))
